@@ -14,10 +14,11 @@ This file closes that gap where it can be closed by proof, and records where the
 * LoadBalancerS2 (`PcProofs/SafetyLB.lean`): the whole-history int64 safety claim for `sieve_limit ≤ 2^62 + 2^33` is REFUTED by a
   kernel-checked history recorded on the real object under a constant (legal: monotone) clock (`s2_history_overflow_witness`);
   what holds of every history (`s2_hands_below`) and what one step needs (`s2_step_no_overflow_of_hand_partial`).
-* FINDING (P2.cpp:109): `(a - 2) * (a + 1)` is an `int64_t` product also for `T = int128_t` and overflows for every
-  `a = π(y) ≥ 3037000501` (`P2_128_closed_form_overflows`; real code: `primecount 1e22 --P2 --alpha=3713.2` prints a negative
-  number, UBSan reports `P2.cpp:109:19: signed integer overflow: 3324998166 * 3324998169`; under default tuning every
-  `primecount x --P2` / `-d` with `x ≥ ~2·10^26`).
+* FINDING F9 (P2.cpp:109 of /repo 0995f00, REPAIRED in /repo 8cccffb): `(a - 2) * (a + 1)` was an `int64_t` product also for
+  `T = int128_t` and overflowed for every `a = π(y) ≥ 3037000501` (`P2_128_closed_form_overflows` about the pre-fix mirror
+  `p2OpenMPCPreFix`; real code of 0995f00: `primecount 1e22 --P2 --alpha=3713.2` printed a negative number, UBSan reported
+  `P2.cpp:109:19: signed integer overflow: 3324998166 * 3324998169`).  The current line (`T pi_y = a; (pi_y - 2) * (pi_y + 1) …`)
+  is `p2InitC`; for it `P2_128_no_overflow` holds with no bound on `a`.
 -/
 import PcProofs.SafetyP2Region
 import PcProofs.P2LoopEx
@@ -62,43 +63,45 @@ theorem P2_thread_no_overflow {it : Iter} (hit : IterSpec it) {pi : ℕ → ℕ}
 /-! ## P2_OpenMP -/
 
 /-- **`P2(int64_t x, y, a)` never overflows**, for EVERY `x < 2^63`, every `y`, `a = π(y)`, every valid run of the parallel
-    region (team, call order, clock, reduction order): the closed form of P2.cpp:109 (`a ≤ π(√x) < 3037000500`), every
+    region (team, call order, clock, reduction order): the closed form of P2.cpp:112 (`a ≤ π(√x)`, `π(√x)² ≤ x`), every
     `pi_xp`, every thread-local / thread-private / reduced `sum` lie in `int64_t`, and the result is `P2(x, a)` -/
 theorem P2_64_no_overflow {it : Iter} (hit : IterSpec it) {pi : ℕ → ℕ} {x y a : ℕ} (hpi : ∀ n, n < x → pi n = π n)
     (ha : a = π y) (hya : pi y = a) (c : Consts) (hc : c.WF) (hx : x < 2 ^ 63) (r : Run)
     (hv : 4 ≤ x → y < Nat.sqrt x → r.valid c x (x / max y 1) = true) :
     p2OpenMPC (2 ^ 63 - 1) c it pi x y a r = .ok (Spec.P2 x a : ℤ) := by
   have hxy : x / max y 1 < two63 := lt_of_le_of_lt (Nat.div_le_self _ _) (by unfold two63; omega)
-  refine p2OpenMPC_eq hit hpi ha hya c hc hxy r hv _ (by omega) ?_
-  intro hy
-  have h1 : Nat.sqrt x < 3037000500 := Nat.sqrt_lt'.2 (by omega)
-  have h2 := pi_le_self y
-  omega
+  exact p2OpenMPC_eq hit hpi ha hya c hc hxy r hv _ (by omega)
 
-/-- `P2(int128_t x, y, a)` for `x < 2^127`: safe WHEN `π(y) ≤ 3037000500` (see the finding below for the rest) -/
-theorem P2_128_no_overflow_of_small_a {it : Iter} (hit : IterSpec it) {pi : ℕ → ℕ} {x y a : ℕ}
+/-- **`P2(int128_t x, y, a)` never overflows** (the code since /repo 8cccffb): EVERY `x < 2^127` whose `x / max(y, 1)` fits the
+    narrowing `(int64_t)(x / max(y, 1))` of P2.cpp:115 (guaranteed by the range check of the 128-bit entry points:
+    `range_check_guarantee`), every `y`, `a = π(y)` — NO bound on `a` — every valid run: the operands and products of the closed
+    form (all `int128_t` now), every `pi_xp`, every thread-local / thread-private / reduced `sum` lie in their types; result `P2(x, a)` -/
+theorem P2_128_no_overflow {it : Iter} (hit : IterSpec it) {pi : ℕ → ℕ} {x y a : ℕ}
     (hpi : ∀ n, n < x → pi n = π n) (ha : a = π y) (hya : pi y = a) (c : Consts) (hc : c.WF) (hx : x < 2 ^ 127)
-    (hxy : x / max y 1 < 2 ^ 63) (r : Run) (hv : 4 ≤ x → y < Nat.sqrt x → r.valid c x (x / max y 1) = true)
-    (hsmall : a ≤ 3037000500) :
+    (hxy : x / max y 1 < 2 ^ 63) (r : Run) (hv : 4 ≤ x → y < Nat.sqrt x → r.valid c x (x / max y 1) = true) :
     p2OpenMPC (2 ^ 127 - 1) c it pi x y a r = .ok (Spec.P2 x a : ℤ) :=
-  p2OpenMPC_eq hit hpi ha hya c hc (by unfold two63; omega) r hv _ (by omega) (fun _ => hsmall)
+  p2OpenMPC_eq hit hpi ha hya c hc (by unfold two63; omega) r hv _ (by omega)
 
-/-- **FINDING (P2.cpp:109)**: `T sum = (a - 2) * (a + 1) / 2 - …` with `int64_t a` multiplies in `int64_t` although
-    `T = int128_t`: for EVERY `x ≥ 4`, `y < √x` and `a = pi_noprint(y) ≥ 3037000501` — whatever the run — the product
-    leaves `int64_t` (signed overflow, undefined behaviour; observed: the result is off by `2^63`) -/
+/-- **FINDING F9 (P2.cpp:109 before /repo 8cccffb; repaired there)**: `T sum = (a - 2) * (a + 1) / 2 - …` with `int64_t a`
+    multiplied in `int64_t` although `T = int128_t`: for EVERY `x ≥ 4`, `y < √x` and `a = pi_noprint(y) ≥ 3037000501` — whatever
+    the run — the product left `int64_t` (signed overflow, undefined behaviour; observed: the result was off by `2^63`).
+    About `p2OpenMPCPreFix`, the mirror of the pre-fix text; the current text is covered by `P2_128_no_overflow`. -/
 theorem P2_128_closed_form_overflows (tMax : ℕ) (c : Consts) (it : Iter) (pi : ℕ → ℕ) (x y a : ℕ) (r : Run)
     (hx : 4 ≤ x) (hy : y < isqrtN x) (ha : a = pi y) (hbig : 3037000501 ≤ a) :
-    p2OpenMPC tMax c it pi x y a r = .error .ovfInitA := by
-  unfold p2OpenMPC
+    p2OpenMPCPreFix tMax c it pi x y a r = .error .ovfInitA := by
+  unfold p2OpenMPCPreFix
   rw [if_neg (by rw [ha]; exact fun h => h rfl), if_neg (by omega)]
   simp only
-  rw [if_neg (by omega), p2InitC_overflows _ _ _ _ hbig]
+  rw [if_neg (by omega), p2InitCPreFix_overflows _ _ _ _ hbig]
 
-/-- the threshold is exact: the product fits for `a = 3037000500` and not for `a = 3037000501` -/
+/-- the threshold of the pre-fix line is exact (the product fits for `a = 3037000500`, not for `a = 3037000501`), and the
+    repaired line computes the exact value `0` at `a = b = 3037000501` and at the 0.1 s reproducer's `a = b = 4118054813` -/
 theorem closed_form_threshold :
-    p2InitC (-(2 ^ 127 : ℤ)) (2 ^ 127 - 1) 3037000500 3037000500 = .ok 0 ∧
-    p2InitC (-(2 ^ 127 : ℤ)) (2 ^ 127 - 1) 3037000501 3037000501 = .error .ovfInitA := by
-  constructor <;> decide
+    p2InitCPreFix (-(2 ^ 127 : ℤ)) (2 ^ 127 - 1) 3037000500 3037000500 = .ok 0 ∧
+    p2InitCPreFix (-(2 ^ 127 : ℤ)) (2 ^ 127 - 1) 3037000501 3037000501 = .error .ovfInitA ∧
+    p2InitC (-(2 ^ 127 : ℤ)) (2 ^ 127 - 1) 3037000501 3037000501 = .ok 0 ∧
+    p2InitC (-(2 ^ 127 : ℤ)) (2 ^ 127 - 1) 4118054813 4118054813 = .ok 0 := by
+  refine ⟨?_, ?_, ?_, ?_⟩ <;> decide
 
 /-! ## B_OpenMP -/
 
@@ -178,6 +181,10 @@ example : p2OpenMPC (2 ^ 63 - 1) genConsts refIter Nat.primeCounting 1000 3 2 ru
   P2_64_no_overflow refIter_spec (fun _ _ => rfl) (by decide) (by decide) genConsts genConsts_wf (by norm_num) run1000
     (fun _ _ => by decide)
 
+example : p2OpenMPC (2 ^ 127 - 1) genConsts refIter Nat.primeCounting 1000 3 2 run1000 = .ok (Spec.P2 1000 2 : ℤ) :=
+  P2_128_no_overflow refIter_spec (fun _ _ => rfl) (by decide) (by decide) genConsts genConsts_wf (by norm_num) (by norm_num)
+    run1000 (fun _ _ => by decide)
+
 example : bOpenMPC (2 ^ 64 - 1) genConsts refIter Nat.primeCounting 1000 3 run1000 = .ok (Spec.B 1000 3) :=
   (B_64_no_overflow refIter_spec (fun _ _ => rfl) 3 genConsts genConsts_wf (by norm_num) run1000 (fun _ => by decide)).1
 
@@ -189,9 +196,9 @@ example : p2ThreadC (2 ^ 63 - 1) refIter Nat.primeCounting 1000 3 31 333 = .ok (
 example : p2ThreadC 15 (listIter primes60 2) (listPi primes60) 100 2 10 52 = .error .ovfSum := by decide +kernel
 example : p2ThreadC 25 (listIter primes60 2) (listPi primes60) 100 2 10 52 = .ok 25 := by decide +kernel
 
-/-- the finding on the input of the 0.1 s reproducer `P2((int128_t) 10^22, 10^11 - 1, 4118054813, 1)` (real code: returns
-    `-9223372036854775808`, exact value `0`); `pi_noprint` is a parameter of the model, here the constant the real one returns -/
-example : p2OpenMPC (2 ^ 127 - 1) genConsts refIter (fun _ => 4118054813) (10 ^ 22) (10 ^ 11 - 1) 4118054813 run1000
+/-- the finding on the input of the 0.1 s reproducer `P2((int128_t) 10^22, 10^11 - 1, 4118054813, 1)` (real code of 0995f00:
+    returned `-9223372036854775808`, exact value `0`); `pi_noprint` is a parameter of the model, here the constant the real one returns -/
+example : p2OpenMPCPreFix (2 ^ 127 - 1) genConsts refIter (fun _ => 4118054813) (10 ^ 22) (10 ^ 11 - 1) 4118054813 run1000
     = .error .ovfInitA :=
   P2_128_closed_form_overflows _ _ _ _ _ _ _ _ (by norm_num) (by
     rw [isqrtN_eq]
@@ -211,7 +218,7 @@ end Pc.C16Safety
 #print axioms Pc.C16Safety.prime_triple_bounds
 #print axioms Pc.C16Safety.P2_thread_no_overflow
 #print axioms Pc.C16Safety.P2_64_no_overflow
-#print axioms Pc.C16Safety.P2_128_no_overflow_of_small_a
+#print axioms Pc.C16Safety.P2_128_no_overflow
 #print axioms Pc.C16Safety.P2_128_closed_form_overflows
 #print axioms Pc.C16Safety.closed_form_threshold
 #print axioms Pc.C16Safety.B_64_no_overflow
